@@ -56,3 +56,45 @@ func (t *Directive) VerifArgs() []*Arg {
 func (root *Root) VerifSchema() *Schema {
 	return root.schema
 }
+
+// VerifMuHeld reports whether the mutex guarding the Go type binding of the
+// object type is held by someone.
+func (t *Object) VerifMuHeld() bool {
+	if t.mu.TryLock() {
+		t.mu.Unlock()
+		return false
+	}
+	return true
+}
+
+// VerifMeta returns the Go type bound to the object type, "" if none. It does
+// not synchronise: call it from a verification point or while nothing else
+// uses the root.
+func (t *Object) VerifMeta() string {
+	if t.meta == nil {
+		return ""
+	}
+	return t.meta.String()
+}
+
+// VerifMuHeld reports whether the mutex guarding the binding of the field
+// definition is held by someone.
+func (f *FieldDef) VerifMuHeld() bool {
+	if f.mu.TryLock() {
+		f.mu.Unlock()
+		return false
+	}
+	return true
+}
+
+// VerifBinding returns how the field definition is bound to the Go type:
+// "none", "field" or "method". It does not synchronise.
+func (f *FieldDef) VerifBinding() string {
+	switch {
+	case 0 < len(f.goField):
+		return "field"
+	case f.method != nil:
+		return "method"
+	}
+	return "none"
+}
